@@ -230,3 +230,34 @@ pub fn array_chain() {
     assert!(reads_back(&re.read(None).expect("read after reopen"), &last), "array does not reconstruct after reopen");
     sym::reach(1);
 }
+
+/// C04 with an object in conflict whose winner is a deletion (longer branch) and whose losing leaf is live:
+/// submitting the document that read() returns, twice in a row, stages the same thing once; an object that is
+/// re-submitted comes back. params: []
+pub fn resubmit_in_conflict() {
+    let (mut a, b) = base_pair(doc_with(&["a", "b"], &["x".to_string(), "y".to_string()], "t"));
+    a.m.update(doc_with(&["a", "b"], &[val(), "y".to_string()], "t")).unwrap();
+    a.m.commit(None).unwrap();
+    a.m.update(doc_with(&["b"], &["y".to_string()], "t")).unwrap();
+    a.m.commit(None).unwrap();
+    b.m.update(doc_with(&["a", "b"], &["q".to_string(), "y".to_string()], "t")).unwrap();
+    b.m.commit(None).unwrap();
+    a.pull(&b);
+    sym::observe_bool(a.m.in_conflict().contains("a"));
+    let d = a.m.read(None).expect("read");
+    let mut d = d;
+    d.remove("_id");
+    a.m.update(d.clone()).expect("update");
+    let st = a.m.stage().expect("stage");
+    let r = a.m.read(None).expect("read");
+    assert!(reads_back(&r, &d), "read differs from the submitted document");
+    a.m.update(d.clone()).expect("update again");
+    assert!(a.m.stage().expect("stage") == st, "re-submitting the same document staged something");
+    assert!(a.m.read(None).expect("read") == r, "re-submitting the same document changed the document");
+    let staged = a.m.has_staging();
+    assert!(a.m.commit(None).expect("commit").is_some() == staged, "commit result does not match has_staging");
+    assert!(a.m.commit(None).expect("idle commit").is_none(), "idle commit reported a block");
+    a.m.update(d.clone()).expect("update after commit");
+    assert!(!a.m.has_staging(), "submitting the committed document again staged something");
+    sym::reach(1);
+}
